@@ -21,6 +21,7 @@ RULE = ('sets of 1-4 concurrently stepping processes with async steps (interleav
         'self and on the parent, control requests (pause/play/kill) issued from outside at loop-callback slots, and -- in separate interpreter '
         'processes using plumpy\'s re-entrant loop policy -- processes executed from inside another process\'s step, nested to depth 3; distinct by '
         '(scripts, plan); non-trivial when >= 2 processes sampled or a nested/child execution occurred; listener samples are recorded, not judged')
+RULE += ('; also: coroutine and callable-object callbacks outliving their step, callbacks scheduled by ordinary code and by children, bound methods of another process as callbacks, cleanups of a process closed without being run')
 ASSUMPTIONS = ['samples in ProcessListener callbacks are not part of the statement (recorded only)',
                'nested execution relies on nest_asyncio as configured by plumpy.set_event_loop_policy()']
 REQUIRED = ['samples/step', 'samples/hook', 'samples/callback', 'samples/outside', 'concurrent_runs', 'nested_runs', 'children', 'where/after-await',
